@@ -1,0 +1,57 @@
+//go:build verif
+
+// Contracts for contract-based deductive verification (checked by /verif/govc).
+// This file is comment-only and compiled only with the build tag "verif".
+//
+// C11 (cache part) and C14: RefreshPods / RefreshContainers.
+
+package cache
+
+// ---- RefreshPods: NOT under contract ---------------------------------------------------------------------------
+// The body contains a channel receive (`podResList := <-resCh`); the engine rejects the whole function
+// ("unsupported: unary op <- at cache.go:699"), also when the contract requires resCh == nil. The intended contract:
+//     requires cacheOK(cch) && keyed(cch) && podsListOK(pods)
+//     ensures  forall id :: (id in cch.Pods) <==> inPodList(pods, id)                      (exactly the listed pods stay / are inserted)
+//     ensures  forall id :: id in cch.Containers ==> cch.Containers[id].Ctr.PodSandboxId in cch.Pods   (no container of an unlisted pod stays)
+//     ensures  result2 = exactly the containers removed, each marked ContainerStateStale; result1 = exactly the pods removed
+// These clauses are exercised on the real code by the bounded stand-in <verif>/bounded/C11_cache_refresh_test.go.
+
+// ---- RefreshContainers ---------------------------------------------------------------------------------------
+// List items of an NRI container list are present (the optional parts are the sub-messages inside them).
+//@ pure ctrListOK(cs []*nri.Container) bool = forall j int :: 0 <= j && j < len(cs) ==> cs[j] != nil
+//@ pure inList(cs []*nri.Container, id string) bool = exists j int :: 0 <= j && j < len(cs) && cs[j].Id == id
+
+//@ func (*cache).RefreshContainers safety=C14,C11
+//@   requires cacheOK(cch) && keyed(cch) && ctrListOK(containers)
+//@   ensures[C11] cacheOK(cch) && keyed(cch)
+//@   # cached containers that survive are the same objects as before
+//@   ensures[C11] forall id string :: id in cch.Containers && old(id in cch.Containers) ==> cch.Containers[id] == old(cch.Containers[id])
+//@   # every container purged from the cache is returned in the second result ...
+//@   ensures[C11] forall id string :: old(id in cch.Containers) && !(id in cch.Containers) ==> exists j int :: 0 <= j && j < len(result1) && result1[j] == old(cch.Containers[id])
+//@   # ... and everything returned there is gone from the cache and marked stale
+//@   ensures[C11] forall j int :: 0 <= j && j < len(result1) ==> asCtr(result1[j]) != nil && asCtr(result1[j]).Ctr != nil &&
+//@                    asCtr(result1[j]).Ctr.State == ContainerStateStale && !(asCtr(result1[j]).Ctr.Id in cch.Containers)
+//@   # everything returned as added was created by this call for a listed container
+//@   ensures[C11] forall j int :: 0 <= j && j < len(result0) ==> fresh(asCtr(result0[j])) && (exists i int :: 0 <= i && i < len(containers) && asCtr(result0[j]).Ctr == containers[i])
+//@   # pods are not touched
+//@   ensures[C11] dom(cch.Pods) == old(dom(cch.Pods)) && vals(cch.Pods) == old(vals(cch.Pods))
+//@ loop 0 in (*cache).RefreshContainers at "range containers"
+//@   invariant[C14,C11] -1 <= rangeindex && rangeindex < len(containers)
+//@   invariant[C14,C11] cacheOK(cch) && keyed(cch) && ctrListOK(containers) && valid != nil && len(del) == 0
+//@   invariant[C11] forall id string :: old(id in cch.Containers) ==> id in cch.Containers && cch.Containers[id] == old(cch.Containers[id])
+//@   invariant[C11] forall j int :: 0 <= j && j < len(add) ==> fresh(asCtr(add[j])) && (exists i int :: 0 <= i && i < len(containers) && asCtr(add[j]).Ctr == containers[i])
+//@   invariant[C11] dom(cch.Pods) == old(dom(cch.Pods)) && vals(cch.Pods) == old(vals(cch.Pods))
+//@ loop 1 in (*cache).RefreshContainers at "range cch.Containers"
+//@   invariant[C14,C11] cacheOK(cch) && keyed(cch) && valid != nil
+//@   invariant[C11] forall id string :: id in cch.Containers && old(id in cch.Containers) ==> cch.Containers[id] == old(cch.Containers[id])
+//@   invariant[C11] forall id string :: old(id in cch.Containers) && !(id in cch.Containers) ==> exists j int :: 0 <= j && j < len(del) && del[j] == old(cch.Containers[id])
+//@   invariant[C11] forall j int :: 0 <= j && j < len(del) ==> asCtr(del[j]) != nil && asCtr(del[j]).Ctr != nil &&
+//@                    asCtr(del[j]).Ctr.State == ContainerStateStale && !(asCtr(del[j]).Ctr.Id in cch.Containers)
+//@   invariant[C11] forall j int :: 0 <= j && j < len(add) ==> fresh(asCtr(add[j])) && (exists i int :: 0 <= i && i < len(containers) && asCtr(add[j]).Ctr == containers[i])
+//@   invariant[C11] dom(cch.Pods) == old(dom(cch.Pods)) && vals(cch.Pods) == old(vals(cch.Pods))
+//@ assert[C11] in (*cache).RefreshContainers at "del = append(del, c)": c != nil && c.Ctr != nil && !(c.Ctr.Id in cch.Containers) && (old(c.Ctr.Id in cch.Containers) ==> c == old(cch.Containers[c.Ctr.Id]))
+//@ assert[C11] in (*cache).RefreshContainers at "del = append(del, c)": forall id string :: id != c.Ctr.Id && old(id in cch.Containers) && !(id in cch.Containers) ==> exists j int :: 0 <= j && j < len(del) && del[j] == old(cch.Containers[id])
+// the purge invariant re-established right after the deletion branch (keeps the loop-step obligation small)
+//@ assert[C11] in (*cache).RefreshContainers at "pod, ok := cch.Pods[c.GetPodID()]": forall id string :: old(id in cch.Containers) && !(id in cch.Containers) ==> exists j int :: 0 <= j && j < len(del) && del[j] == old(cch.Containers[id])
+//@ assert[C11] in (*cache).RefreshContainers at "pod, ok := cch.Pods[c.GetPodID()]": forall j int :: 0 <= j && j < len(del) ==> asCtr(del[j]) != nil && asCtr(del[j]).Ctr != nil &&
+//@                    asCtr(del[j]).Ctr.State == ContainerStateStale && !(asCtr(del[j]).Ctr.Id in cch.Containers)
